@@ -69,8 +69,13 @@ def decorators_of(func) -> tuple[list[str], object]:
 
 def handler_table(cls) -> str:
     rows = []
+    # Dispatch reaches "handle_" + <lower-cased member name> only (Gateway.names_ok): the public
+    # handle_* methods are the table.  The two private names the pinned tree has are kept (the Coq
+    # side skips them); any other private helper is part of a handler body, i.e. of the
+    # hand-written model that the correspondence and the exercise gate tie to the code.
     names = sorted(
-        n for n in dir(cls) if n.startswith("handle_") or n.startswith("_handle_")
+        n for n in dir(cls)
+        if n.startswith("handle_") or n in ("_handle_message", "_handle_sleep_buffer")
     )
     for n in names:
         chain = []
